@@ -534,6 +534,32 @@ class _Fmt:
         return self.fo._attr(self.v, name)
 
 
+class LoggerStub:
+    """logging.Logger as far as a program can observe it without reading the log: the emitting methods do nothing (their ARGUMENTS are
+    evaluated by the caller as usual), the level queries answer what the deployment configured - `debug` of the owning Folder
+    (`Folder.debug_logging`): the properties must hold under either setting."""
+    _sa_native = True
+
+    def __init__(self, fo):
+        self._fo = fo
+
+    def _emit(self, *a, **k):
+        return None
+    debug = info = warning = warn = error = exception = critical = log = setLevel = addHandler = removeHandler = _emit
+
+    def isEnabledFor(self, level):
+        return bool(self._fo.debug_logging) if isinstance(level, int) and level < 30 else True
+
+    def getEffectiveLevel(self):
+        return 10 if self._fo.debug_logging else 30
+
+    def getChild(self, *a):
+        return self
+
+    def __bool__(self):
+        return True
+
+
 class _GenClose(BaseException):
     """Thrown into a suspended generator of the subject when it is closed."""
 
@@ -719,6 +745,7 @@ class Folder:
         self.numpy = None          # sa.npstub when the rule wants numpy's 1-d arrays modelled (never the real numpy)
         self.steps = 0
         self.max_steps = max_steps
+        self.debug_logging = False  # what logging.Logger.isEnabledFor(DEBUG / INFO) answers (a fact of the deployment, not of the program)
         self._globals = {}         # (module, name) -> value of a module-level variable rebound through a `global` statement
         self._handling = []        # exceptions of the subject being handled (innermost last): what a bare `raise` re-raises
 
@@ -792,6 +819,48 @@ class Folder:
             return c
         if isinstance(obj, tuple) and not (obj and isinstance(obj[0], str) and obj[0] in ('lambda', 'closure', 'func', 'pyfunc', 'builtin', 'strmethod', 'pymodule', 'extern')):
             return tuple(self.clone(v, memo) for v in obj)
+        if getattr(obj, '_sa_native', False) and hasattr(obj, 'copy') and hasattr(obj, 'data'):
+            c = obj.copy()
+            memo[id(obj)] = c
+            return c
+        return obj
+
+    def _deep(self, obj, memo):
+        """copy.deepcopy of a value of the subject: as `clone`, but an object whose class defines __deepcopy__ is copied by that method."""
+        if id(obj) in memo:
+            return memo[id(obj)]
+        if isinstance(obj, DV) and id(obj) in self._fresh:
+            c_, fn_ = self._find(obj.cls, '__deepcopy__')
+            if fn_ is not None:
+                r = self._invoke(c_.module, c_, fn_, obj, [memo], {})
+                memo.setdefault(id(obj), r)
+                return r
+            c = DV(obj.cls, {})
+            memo[id(obj)] = c
+            self._fresh.add(id(c))
+            self._keep.append(c)
+            for k, v in obj.fields.items():
+                c.fields[k] = self._deep(v, memo)
+            return c
+        if isinstance(obj, dict):
+            c = {}
+            if type(obj) is not dict and hasattr(obj, 'default_factory'):
+                c = type(obj)(obj.default_factory)
+            memo[id(obj)] = c
+            for k, v in obj.items():
+                c[self._deep(k, memo)] = self._deep(v, memo)
+            return c
+        if isinstance(obj, list):
+            c = []
+            memo[id(obj)] = c
+            c.extend(self._deep(v, memo) for v in obj)
+            return c
+        if isinstance(obj, set):
+            c = {self._deep(v, memo) for v in obj}
+            memo[id(obj)] = c
+            return c
+        if isinstance(obj, tuple) and not (obj and isinstance(obj[0], str) and obj[0] in ('lambda', 'closure', 'func', 'pyfunc', 'builtin', 'strmethod', 'pymodule', 'extern')):
+            return tuple(self._deep(v, memo) for v in obj)
         if getattr(obj, '_sa_native', False) and hasattr(obj, 'copy') and hasattr(obj, 'data'):
             c = obj.copy()
             memo[id(obj)] = c
@@ -923,6 +992,15 @@ class Folder:
                 return ci.name.split('.')[-1]
             if name == '_fields' and ci.is_namedtuple:
                 return tuple(n for n in ci.order if n in ci.annots)
+            if name == '__new__' and self._find(ci, '__new__')[1] is None and not ci.is_enum:
+                def new_(cls_=None, *a_, **k_):
+                    if not isinstance(cls_, ClsRef):
+                        raise Unsupported('__new__ without a class of the package')
+                    o_ = DV(cls_.cls, {})
+                    self._fresh.add(id(o_))
+                    self._keep.append(o_)
+                    return o_
+                return ('pyfunc', new_)
             c, fn = self._find(ci, name)
             if fn is not None:
                 k = c.method_kind(name)
@@ -980,6 +1058,14 @@ class Folder:
             except (ImportError, AttributeError):
                 raise Unsupported(f'attribute {name} of module {obj[1]}')
             return ('pyfunc', v) if callable(v) else v
+        if isinstance(obj, tuple) and len(obj) == 2 and obj[0] == 'pymodule' and obj[1] == 'logging':
+            import logging as _lg
+            if name == 'getLogger':
+                return ('pyfunc', lambda *a, **k: LoggerStub(self))
+            if name in ('DEBUG', 'INFO', 'WARNING', 'WARN', 'ERROR', 'CRITICAL', 'NOTSET', 'FATAL'):
+                return getattr(_lg, name)
+            if name in ('debug', 'info', 'warning', 'error', 'exception', 'critical', 'log', 'basicConfig'):
+                return ('pyfunc', lambda *a, **k: None)
         if isinstance(obj, tuple) and len(obj) == 2 and obj[0] == 'pymodule' and obj[1] == 'json' and name in ('dumps', 'loads'):
             import json as _json
 
@@ -989,19 +1075,34 @@ class Folder:
                 return _json.dumps(o, *a, **k)
             return ('pyfunc', dumps_ if name == 'dumps' else _json.loads)
         if isinstance(obj, tuple) and len(obj) == 2 and obj[0] == 'pymodule' and obj[1] == 'copy' and name in ('copy', 'deepcopy') and not self.stubs.get('copy.' + name):
-            def copy_(o, _deep=(name == 'deepcopy')):
-                if isinstance(o, DV) and any(self._find(o.cls, d_)[1] is not None for d_ in ('__copy__', '__deepcopy__', '__reduce__', '__getstate__')):
-                    raise Unsupported('copy of an object with its own copy protocol')
+            def copy_(o, memo=None, _deep=(name == 'deepcopy')):
+                if isinstance(o, DV):
+                    own = '__deepcopy__' if _deep else '__copy__'
+                    c_, fn_ = self._find(o.cls, own)
+                    if fn_ is not None:
+                        # the class's own copy protocol (memo: the dictionary copy.deepcopy threads through the recursion)
+                        if _deep:
+                            memo = {} if memo is None else memo
+                            if id(o) in memo:
+                                return memo[id(o)]
+                            return self._invoke(c_.module, c_, fn_, o, [memo], {})
+                        return self._invoke(c_.module, c_, fn_, o, [], {})
+                    if any(self._find(o.cls, d_)[1] is not None for d_ in ('__reduce__', '__reduce_ex__', '__getstate__', '__setstate__', '__getnewargs__')):
+                        raise Unsupported('copy of an object with its own pickle protocol')
                 if _deep:
-                    return self.clone(o)
+                    if isinstance(o, DV) and memo is not None and id(o) in memo:
+                        return memo[id(o)]
+                    return self._deep(o, {} if memo is None else memo)
                 if isinstance(o, DV):
                     if id(o) not in self._fresh:
                         return o
-                    c_ = DV(o.cls, dict(o.fields))
-                    self._fresh.add(id(c_))
-                    self._keep.append(c_)
-                    return c_
+                    c2 = DV(o.cls, dict(o.fields))
+                    self._fresh.add(id(c2))
+                    self._keep.append(c2)
+                    return c2
                 if isinstance(o, (list, dict, set, bytearray)) and not getattr(o, '_sa_native', False):
+                    return o.copy()
+                if getattr(o, '_sa_native', False) and hasattr(o, 'copy') and hasattr(o, 'data'):
                     return o.copy()
                 if self._plain_value(o) or isinstance(o, (tuple, frozenset, EV, ClsRef)):
                     return o
@@ -1061,6 +1162,15 @@ class Folder:
             return ('pyfunc', m_)
         if isinstance(obj, tuple) and len(obj) == 2 and obj[0] == 'builtin' and name == '__name__':
             return obj[1]
+        if obj == ('builtin', 'object') and name == '__new__':
+            def onew_(cls_=None, *a_, **k_):
+                if not isinstance(cls_, ClsRef):
+                    raise Unsupported('object.__new__ without a class of the package')
+                o_ = DV(cls_.cls, {})
+                self._fresh.add(id(o_))
+                self._keep.append(o_)
+                return o_
+            return ('pyfunc', onew_)
         if isinstance(obj, (set, frozenset)) and name in ('add', 'remove', 'discard', 'copy', 'union', 'issubset', 'pop', 'clear', 'update', 'difference', 'intersection',
                                                           'symmetric_difference', 'isdisjoint', 'issuperset', 'difference_update', 'intersection_update',
                                                           'symmetric_difference_update') and hasattr(obj, name):
@@ -2112,6 +2222,10 @@ class Folder:
                 return ('pymodule', r[1])
         if name == 'NotImplemented':
             return NotImplemented
+        if name == '__name__':
+            return mod.name
+        if name == '__file__':
+            return mod.path
         if name in BUILTINS:
             return ('builtin', name)
         raise Unsupported(f'name {name}')
@@ -2279,17 +2393,9 @@ class Folder:
             na_, nb_ = (self._enum_num(a) if isinstance(a, EV) else a), (self._enum_num(b) if isinstance(b, EV) else b)
             if isinstance(na_, (int, float)) and isinstance(nb_, (int, float)):
                 a, b = na_, nb_
-        if isinstance(a, EV) or isinstance(b, EV):
-            dn = {ast.Lt: ('__lt__', '__gt__'), ast.LtE: ('__le__', '__ge__'), ast.Gt: ('__gt__', '__lt__'), ast.GtE: ('__ge__', '__le__')}[type(op)]
-            for x_, y_, d_ in ((a, b, dn[0]), (b, a, dn[1])):
-                if isinstance(x_, EV):
-                    c, fn = self._find(x_.cls, d_)
-                    if fn is not None:
-                        r_ = self._invoke(c.module, c, fn, x_, [y_], {})
-                        if r_ is not NotImplemented:
-                            return r_
-            if any(isinstance(x_, EV) and any('total_ordering' in d for d in x_.cls.decorators) for x_ in (a, b)):
-                raise Unsupported('ordering of enum members through functools.total_ordering')
+        if (isinstance(a, EV) or isinstance(b, EV)) and any(isinstance(x_, EV) and any(self._find(x_.cls, d_)[1] is not None for d_ in ('__lt__', '__le__', '__gt__', '__ge__')) for x_ in (a, b)):
+            # an enumeration with its own ordering methods (possibly completed by functools.total_ordering)
+            return self._rich({ast.Lt: 'lt', ast.LtE: 'le', ast.Gt: 'gt', ast.GtE: 'ge'}[type(op)], a, b)
         for v in (a, b):
             if isinstance(v, (EV, DV, ClsRef)) or v is None:
                 raise FoldRaise('TypeError', 'ordering of non-numbers')
@@ -2337,9 +2443,17 @@ class Folder:
         return out
 
     def _rich1(self, x, opn: str, y):
+        if isinstance(x, EV):
+            c, fn = self._find(x.cls, f'__{opn}__')
+            if fn is not None:
+                return self._invoke(c.module, c, fn, x, [y], {})
+            if opn in ('eq', 'ne'):
+                same = isinstance(y, EV) and y == x
+                return same if opn == 'eq' else not same
+            if any('total_ordering' in d for c_ in self.repo.mro(x.cls) for d in c_.decorators):
+                return self._total_ordering(x, opn, y)
+            return NotImplemented
         if not isinstance(x, DV):
-            if isinstance(y, DV) and y.cls.is_namedtuple and isinstance(x, tuple):
-                return NotImplemented       # tuple.__op__(namedtuple) is decided by the reflected call below on the tuple view
             return NotImplemented
         c, fn = self._find(x.cls, f'__{opn}__')
         if fn is not None:
@@ -2366,21 +2480,25 @@ class Folder:
             r = self._rich1(x, 'eq', y)
             return NotImplemented if r is NotImplemented else not self._truth(r)
         if 'total_ordering' in decs and opn in ('lt', 'le', 'gt', 'ge'):
-            root = next((r_ for r_ in ('lt', 'le', 'gt', 'ge') if self._find(x.cls, f'__{r_}__')[1] is not None), None)
-            if root is None:
-                return NotImplemented
-            c2, f2 = self._find(x.cls, f'__{root}__')
-            r = self._invoke(c2.module, c2, f2, x, [y], {})
-            if r is NotImplemented:
-                return NotImplemented
-            r = self._truth(r)
-            eq = lambda: self._truth(self._rich('eq', x, y))       # noqa: E731
-            table = {('lt', 'gt'): lambda: not r and not eq(), ('lt', 'le'): lambda: r or eq(), ('lt', 'ge'): lambda: not r,
-                     ('le', 'ge'): lambda: not r or eq(), ('le', 'lt'): lambda: r and not eq(), ('le', 'gt'): lambda: not r,
-                     ('gt', 'lt'): lambda: not r and not eq(), ('gt', 'ge'): lambda: r or eq(), ('gt', 'le'): lambda: not r,
-                     ('ge', 'le'): lambda: not r or eq(), ('ge', 'gt'): lambda: r and not eq(), ('ge', 'lt'): lambda: not r}
-            return table[(root, opn)]()
+            return self._total_ordering(x, opn, y)
         return NotImplemented
+
+    def _total_ordering(self, x, opn: str, y):
+        """The comparison functools.total_ordering derives from the one ordering method the class defines (and ==)."""
+        root = next((r_ for r_ in ('lt', 'le', 'gt', 'ge') if self._find(x.cls, f'__{r_}__')[1] is not None), None)
+        if root is None:
+            return NotImplemented
+        c2, f2 = self._find(x.cls, f'__{root}__')
+        r = self._invoke(c2.module, c2, f2, x, [y], {})
+        if r is NotImplemented:
+            return NotImplemented
+        r = self._truth(r)
+        eq = lambda: self._truth(self._cmp(ast.Eq(), x, y))       # noqa: E731
+        table = {('lt', 'gt'): lambda: not r and not eq(), ('lt', 'le'): lambda: r or eq(), ('lt', 'ge'): lambda: not r,
+                 ('le', 'ge'): lambda: not r or eq(), ('le', 'lt'): lambda: r and not eq(), ('le', 'gt'): lambda: not r,
+                 ('gt', 'lt'): lambda: not r and not eq(), ('gt', 'ge'): lambda: r or eq(), ('gt', 'le'): lambda: not r,
+                 ('ge', 'le'): lambda: not r or eq(), ('ge', 'gt'): lambda: r and not eq(), ('ge', 'lt'): lambda: not r}
+        return table[(root, opn)]()
 
     def _seq_compare(self, opn: str, xs: tuple, ys: tuple) -> bool:
         """Lexicographic comparison of two tuples of values of the subject (as tuple.__lt__ etc. do it: first differing pair decides)."""
@@ -2980,6 +3098,8 @@ class Folder:
                 if kw.get('file') is not None:
                     raise Unsupported('print(file=...)')
                 return None
+            if n == 'id':
+                return id(args[0])       # only meaningful as a key (the memo of copy.deepcopy); never compared with a constant
             if n == 'callable':
                 v0 = args[0]
                 return isinstance(v0, (Bound, ClsRef)) or (isinstance(v0, tuple) and bool(v0) and isinstance(v0[0], str) and v0[0] in ('lambda', 'closure', 'func', 'pyfunc', 'builtin', 'strmethod')) \
